@@ -1,20 +1,21 @@
 #!/bin/bash
-# usage: run_mutants.sh <prop>   — runs every selftest mutant of the property; prints a table.
-# names containing "-r0" (refactors) must stay silent (exit 0); "-u0" may be UNDECIDED (2) but never VIOLATION; all others must be reported (exit 1).
+# usage: run_mutants.sh <prop> — runs every selftest mutant of the property and prints a table.
+# Expectation by name: r<k> refactors must stay silent (0); u<k>/UNDECIDED may be UNDECIDED (0 or 2) but never VIOLATION;
+# n<k>/NOTE-only silent; everything else must be reported (1). Overrides: selftest/mutants/EXPECT.txt ("<file> <exits> # why").
 P=$1
 ok=0; bad=0
 for m in /verif/selftest/mutants/$P/*; do
-  out=$(MUTLINES=2 /verif/tools/mutrun.sh "$m" $P 2>&1); rc=$?
   b=$(basename $m)
-  case "$b" in
-    *-r0*) want="0";;
-    *-u0*) want="0 2";;
-    *m18-symlink-unchecked*) want="0";;
-    *) want="1";;
-  esac
+  out=$(MUTLINES=2 /verif/tools/mutrun.sh "$m" $P 2>&1); rc=$?
+  want="1"
+  if echo "$b" | grep -Eq '^(c[0-9]+-)?r[0-9]'; then want="0"; fi
+  if echo "$b" | grep -Eq '^(c[0-9]+-)?u[0-9]|UNDECIDED'; then want="0 2"; fi
+  if echo "$b" | grep -Eq '^(c[0-9]+-)?n[0-9]|NOTE-only'; then want="0"; fi
+  ov=$(grep -E "^$b " /verif/selftest/mutants/EXPECT.txt 2>/dev/null | head -1 | sed 's/#.*//' | cut -d' ' -f2-)
+  [ -n "$ov" ] && want="$ov"
   if echo " $want " | grep -q " $rc "; then ok=$((ok+1)); st=ok; else bad=$((bad+1)); st=UNEXPECTED; fi
   rule=$(echo "$out" | grep -o 'rule=[^ ]*' | head -1)
-  printf "%-12s %-50s exit=%s %s\n" "$st" "$b" "$rc" "$rule"
+  printf "%-12s %-52s exit=%s want=%s %s\n" "$st" "$b" "$rc" "$(echo $want|tr ' ' '|')" "$rule"
 done
 echo "mutants of $P: as expected=$ok unexpected=$bad"
 [ $bad -eq 0 ]
